@@ -469,25 +469,26 @@ InSpace(e) ==
   /\ e.act \in NameActs \cup DataActs
   /\ ~(e.act \in DataActs /\ e.typ = TypAAAA /\ EmbeddedV4(e.s))
 
-\* the storage and the witnesses leave syntax as the only possible reason for a rejection
+\* the storage st and the witnesses leave syntax as the only possible reason for a rejection
 \* (an unregistered TLD, a missing parent, a used record slot ... are rejections the statement
 \*  does not talk about)
-StateAllows(e) ==
-  CASE e.act = "isAvailable" -> NumLabels(e.s) = 1 \/ LastLabel(e.s) \in roots
-    [] e.act = "register"    -> /\ NumLabels(e.s) >= 2 /\ LastLabel(e.s) \in roots /\ LastLabel(e.s) \in names
-                                /\ ParentsOf(e.s) \subseteq names /\ "CMT" \in e.S
-    [] e.act = "registerTLD" -> NumLabels(e.s) = 1 /\ e.s \notin roots /\ "CMT" \in e.S
-    [] e.act = "addRecord"   -> /\ e.name \in names /\ NumLabels(e.name) = 2 /\ LastLabel(e.name) \in names /\ "CMT" \in e.S
-                                /\ ~\E r \in recs : SameKey(r, e.name, e.typ) /\ r.data = e.s
-                                /\ Cardinality({r \in recs : SameKey(r, e.name, e.typ)}) <= 15
-                                /\ (e.typ = TypCNAME => ~\E r \in recs : SameKey(r, e.name, e.typ))
-    [] e.act = "setRecord"   -> /\ e.name \in names /\ NumLabels(e.name) = 2 /\ LastLabel(e.name) \in names /\ "CMT" \in e.S
-                                /\ \E r \in recs : SameKey(r, e.name, e.typ) /\ r.id = e.id
+StateAllowsOn(st, e) ==
+  CASE e.act = "isAvailable" -> NumLabels(e.s) = 1 \/ LastLabel(e.s) \in st.roots
+    [] e.act = "register"    -> /\ NumLabels(e.s) >= 2 /\ LastLabel(e.s) \in st.roots /\ LastLabel(e.s) \in st.names
+                                /\ ParentsOf(e.s) \subseteq st.names /\ "CMT" \in e.S
+    [] e.act = "registerTLD" -> NumLabels(e.s) = 1 /\ e.s \notin st.roots /\ "CMT" \in e.S
+    [] e.act = "addRecord"   -> /\ e.name \in st.names /\ NumLabels(e.name) = 2 /\ LastLabel(e.name) \in st.names /\ "CMT" \in e.S
+                                /\ ~\E r \in st.recs : SameKey(r, e.name, e.typ) /\ r.data = e.s
+                                /\ Cardinality({r \in st.recs : SameKey(r, e.name, e.typ)}) <= 15
+                                /\ (e.typ = TypCNAME => ~\E r \in st.recs : SameKey(r, e.name, e.typ))
+    [] e.act = "setRecord"   -> /\ e.name \in st.names /\ NumLabels(e.name) = 2 /\ LastLabel(e.name) \in st.names /\ "CMT" \in e.S
+                                /\ \E r \in st.recs : SameKey(r, e.name, e.typ) /\ r.id = e.id
     [] OTHER -> FALSE
 
-\* accepted <=> well-formed
-C18_OnlyValid(e)  == InSpace(e) /\ Accepted(e) => Ref(e)
-C18_AllValid(e)   == InSpace(e) /\ Ref(e) /\ StateAllows(e) => Accepted(e)
+\* accepted <=> well-formed (st = the storage the invocation ran on)
+C18_OnlyValid(e)      == InSpace(e) /\ Accepted(e) => Ref(e)
+C18_AllValidOn(st, e) == InSpace(e) /\ Ref(e) /\ StateAllowsOn(st, e) => Accepted(e)
+C18_AllValid(e)       == C18_AllValidOn(St, e)
 \* rejection changes nothing (register may also refuse by returning false)
 C18_RejectInert(e) == (e.res = "FAULT" \/ e.ret = "false") => UNCHANGED <<roots, names, recs>>
 \* an accepted record is stored as given
